@@ -209,6 +209,9 @@ def check(ctx):
     # the compensated sums must reach the reported result unchanged: result() reports the cell
     # scaled by the bin size and nothing else (shared with C02 / C11)
     from .common import share
-    share(ctx, 'C02', 'R4/C02.', ['R5.', 'R2.'])
+    share(ctx, 'C02', 'R4/C02.', ['R5.', 'R2.', 'R7.counters_stay_integers'])
+    # the compensated sums of the ranks are merged in the numeric type T (no detour through double)
+    single_precision(ctx, 'prec.reduction_type', ['hep::allreduce_result'], 1)
+    share(ctx, 'C04', 'R5/C04.', ['R4.collectives_unconditional', 'R5.datatype'])
     share(ctx, 'C11', 'R4/C11.', ['R4.bin_sum', 'R1.cell_storage', 'R1.storage'])
 
